@@ -446,16 +446,20 @@ def op_set_flat(rng, inp, via="array", malformed=False):
     keep = via == "array" and existing and rng.random() < 0.3
     if keep:
         ty = dict(inp["schema"])[name]
-    scalar = rng.random() < 0.2
+    scalar = rng.random() < 0.2 and ty != "timestamp"   # a Timestamp scalar goes through np.repeat (object, us precision)
     if scalar:
         v = gen.gen_value(rng, ty, 0)
+        while v != v:                                      # NaN scalar: from_pandas=True makes it null
+            v = gen.gen_value(rng, ty, 0)
         value = v
-        mval, sval = f"(FScalar {core.cq_val(core.tok(v))})", f"(FVScalar {core.cq_val(core.tok(v))})"
+        mval, sval = f"(FScalar ({core.cq_val(core.tok(v))}))", f"(FVScalar ({core.cq_val(core.tok(v))}))"
         vdesc = {"scalar": repr(v)}
     else:
         m = fl + (rng.choice([-1, 1, 2]) if malformed else 0)
         vals = values_of_type(rng, ty, max(0, m))
         form = rng.choice(["pa", "pa_chunked", "series_arrow"])
+        if not vals and form == "pa_chunked":
+            form = "pa"        # pa.array(<empty ChunkedArray>) infers the null type: Arrow's inference, not generated
         pa_arr = pa.array(vals, type=gen.TYPES[ty])
         if form == "pa":
             value = pa_arr
